@@ -380,6 +380,11 @@ func init() {
 				emit(promoPlacement(r), "promo")
 			}
 			emit(promoPlacement2(r), "promo2")
+			if i%5 == 0 {
+				if f := underpromoPlacement(r); f != "" {
+					emit(f, "underpromo")
+				}
+			}
 			switch i % 4 {
 			case 0, 1:
 				emit(sparsePlacement(r), "sparse")
@@ -418,9 +423,21 @@ func init() {
 	commands["longgames"] = func(args []string) {
 		n := intArg(args, 0, 6)
 		r := newRng(seedFromEnv() + 1818)
+		// games that carry the int16 game-ply counter past 32767 (the loader caps the move number so that this needs ~900 further
+		// plies): knights shuffling out and back
+		shuffle := func(k int) string { return strings.TrimSpace(strings.Repeat("g1f3 g8f6 f3g1 f6g8 ", k)) }
+		var cmds []string
+		var plies []int
+		cmds = append(cmds, "position fen rnbqkbnr/pppppppp/8/8/8/8/PPPPPPPP/RNBQKBNR w KQkq - 0 15933 moves "+shuffle(250),
+			"position fen rnbqkbnr/pppppppp/8/8/8/8/PPPPPPPP/RNBQKBNR b KQkq - 0 15933 moves g8f6 g1f3 f6g8 f3g1 "+strings.TrimSpace(strings.Repeat("g8f6 g1f3 f6g8 f3g1 ", 230)),
+			"position startpos moves "+shuffle(8200))
+		plies = append(plies, 1000, 924, 32800)
 		for g := 0; g < n; g++ {
 			gm := playout(r, "startpos", 300+r.intn(400))
-			cmd := "position startpos moves " + strings.Join(gm.moves, " ")
+			cmds = append(cmds, "position startpos moves "+strings.Join(gm.moves, " "))
+			plies = append(plies, len(gm.moves))
+		}
+		for g, cmd := range cmds {
 			status := "ok"
 			exited := make(chan struct{}, 4)
 			oc := startCollect()
@@ -457,7 +474,10 @@ func init() {
 			if status == "ok" && nb != 1 {
 				status = fmt.Sprintf("%d bestmove lines", nb)
 			}
-			fmt.Fprintf(out, "%s\t%d\t%s\n", status, len(gm.moves), cmd)
+			if len(cmd) > 4000 {
+				cmd = cmd[:2000] + " ... " + cmd[len(cmd)-200:]
+			}
+			fmt.Fprintf(out, "%s\t%d\t%s\n", status, plies[g], cmd)
 		}
 	}
 }
@@ -796,4 +816,137 @@ func twoRankBesidePawn(r *rng) (string, string) {
 	}
 	mv := fmt.Sprintf("%c%d%c%d", 'a'+ff, fromRank+1, 'a'+tf, toRank+1)
 	return fenFromMap(cells, side, "-", "-", 1+r.intn(40)), mv
+}
+
+// Positions in which UNDER-promotion matters one ply below the root: after some reply of the side to move, the opponent's pawn
+// promotes, the queen promotion stalemates and the rook (or bishop) promotion does not.  Built backwards: find a position P with
+// such a promotion for the side to move, then put the other king on a neighbouring square from which it can legally step to
+// where it stands in P, and give that side the move.
+func underpromoPlacement(r *rng) string {
+	for tries := 0; tries < 40000; tries++ {
+		cells := map[int]byte{}
+		white := r.chance(1, 2) // colour of the promoting side
+		prank, dir := 6, 1
+		if !white {
+			prank, dir = 1, -1
+		}
+		pf := r.intn(8)
+		pawn, pk, ok := byte('P'), byte('K'), byte('k')
+		if !white {
+			pawn, pk, ok = 'p', 'k', 'K'
+		}
+		cells[sq(pf, prank)] = pawn
+		near := func(f0, r0, d int) (int, bool) {
+			f, rk := f0+r.intn(2*d+1)-d, r0+r.intn(2*d+1)-d
+			if f < 0 || f > 7 || rk < 0 || rk > 7 {
+				return 0, false
+			}
+			s := sq(f, rk)
+			if _, used := cells[s]; used {
+				return 0, false
+			}
+			return s, true
+		}
+		ks, good := near(pf, prank+dir, 2) // the king that may get stalemated: close to the promotion square
+		if !good {
+			continue
+		}
+		cells[ks] = ok
+		ws, good := near(pf, prank, 3)
+		if !good {
+			continue
+		}
+		cells[ws] = pk
+		for i := 0; i < r.intn(3); i++ {
+			c := "NBnbRr"[r.intn(6)]
+			if s, g := near(pf, prank, 4); g {
+				cells[s] = c
+			}
+		}
+		side, other := "w", "b"
+		if !white {
+			side, other = "b", "w"
+		}
+		fenP := fenFromMap(cells, side, "-", "-", 1+r.intn(40))
+		gen, err := engine.NewGeneratorFromFen(fenP)
+		if err != nil {
+			continue
+		}
+		found := false
+		for _, m := range legalMoves(gen) {
+			if len(m.text) != 5 || m.text[4] != 'q' {
+				continue
+			}
+			if engine.VerifPush(gen, m.text) != nil {
+				continue
+			}
+			stale := len(legalMoves(gen)) == 0 && !engine.VerifInCheck(gen.VerifTop())
+			engine.VerifPop(gen)
+			if !stale {
+				continue
+			}
+			if engine.VerifPush(gen, m.text[:4]+"r") != nil {
+				continue
+			}
+			rookOK := len(legalMoves(gen)) > 0
+			engine.VerifPop(gen)
+			if rookOK {
+				found = true
+			}
+		}
+		if !found {
+			continue
+		}
+		// one ply earlier: the other king comes from a neighbouring square
+		for _, d := range r.perm(8) {
+			df, dr := []int{-1, 0, 1, -1, 1, -1, 0, 1}[d], []int{-1, -1, -1, 0, 0, 1, 1, 1}[d]
+			f, rk := ks&15+df, ks>>4+dr
+			if f < 0 || f > 7 || rk < 0 || rk > 7 {
+				continue
+			}
+			from := sq(f, rk)
+			if _, used := cells[from]; used {
+				continue
+			}
+			c2 := map[int]byte{}
+			for k, v := range cells {
+				c2[k] = v
+			}
+			delete(c2, ks)
+			c2[from] = ok
+			fen2 := fenFromMap(c2, other, "-", "-", 1+r.intn(40))
+			g2, err := engine.NewGeneratorFromFen(fen2)
+			if err != nil {
+				continue
+			}
+			mv := fmt.Sprintf("%c%d%c%d", 'a'+f, rk+1, 'a'+ks&15, ks>>4+1)
+			// the pawn promotes whatever the king does (it can neither block nor take it): the square where only an
+			// under-promotion wins is then the defender's best try, so the line lies on the principal path
+			canStep, alwaysPromotes := false, true
+			for _, m := range legalMoves(g2) {
+				if m.text == mv {
+					canStep = true
+				}
+				if engine.VerifPush(g2, m.text) != nil {
+					alwaysPromotes = false
+					break
+				}
+				promo := false
+				for _, x := range legalMoves(g2) {
+					if len(x.text) == 5 {
+						promo = true
+					}
+				}
+				engine.VerifPop(g2)
+				if !promo {
+					alwaysPromotes = false
+					break
+				}
+			}
+			if canStep && alwaysPromotes {
+				return fen2
+			}
+		}
+	}
+	return ""
 }
